@@ -9,6 +9,7 @@ require (
 	github.com/miekg/dns v1.1.62
 	github.com/things-go/go-socks5 v0.0.5
 	go.uber.org/zap v1.27.0
+	golang.org/x/time v0.7.0
 )
 
 require (
@@ -101,7 +102,6 @@ require (
 	golang.org/x/sys v0.26.0 // indirect
 	golang.org/x/term v0.25.0 // indirect
 	golang.org/x/text v0.19.0 // indirect
-	golang.org/x/time v0.7.0 // indirect
 	google.golang.org/genproto/googleapis/api v0.0.0-20240506185236-b8a5c65736ae // indirect
 	google.golang.org/genproto/googleapis/rpc v0.0.0-20240429193739-8cf5692501f6 // indirect
 	google.golang.org/grpc v1.63.2 // indirect
